@@ -5,7 +5,7 @@ package c17
 // the written text differently (drops the fraction, mishandles a zone offset,
 // clamps an extreme year) was invisible. Here the dimension is the TEXT of a
 // bound: fractional seconds (.5, .000000001, .999999999), zone offsets other
-// than Z, alternative spellings (lower-case t / z, +00:00, -00:00, comma,
+// than Z (+02:00, -07:00, +14:00, +05:30, -09:30), alternative spellings (lower-case t / z, +00:00, -00:00, comma,
 // padded fraction, zero fraction, surrounding blanks), bounds just before and at
 // the Unix epoch, at the end of year 9999, at the start of year 1, equal bounds
 // in different spellings and bounds 1 ns apart — crossed into windows and
@@ -390,6 +390,13 @@ func bAlphabet(a bAnchor) ([]bSpell, error) {
 		if err := add(next, 0, st, false); err != nil {
 			return nil, err
 		}
+	}
+	// offsets that are not whole hours
+	if err := add(half, 330, stPlain, false); err != nil {
+		return nil, err
+	}
+	if err := add(next, -570, stPlain, false); err != nil {
+		return nil, err
 	}
 	for _, text := range a.Extra {
 		info, ok := parseStamp(text)
@@ -1123,6 +1130,8 @@ func boundSpellings(t *testing.T, r *runner.Run, deadline time.Time, workers int
 					}
 				case emptyWindow(wss[slot]):
 					r.Add("bnd_"+c.name+"_refused_until_not_after_from", 1)
+				case sc.Feature == "bound-at-0001-01-01T00:00:00Z":
+					r.Add("bnd_"+c.name+"_refused_bound_at_start_of_year_1", 1)
 				case !sc.strict:
 					r.Add("bnd_"+c.name+"_refused_alternative_spelling", 1)
 					r.Distinct(fmt.Sprintf("bnd|refused|%s|%s|%s", c.name, sc.Anchor, sc.styles))
